@@ -372,4 +372,6 @@ def run(rep):
         rep.add_bounded(f"{P}/bounded.{res['name']}", res['ok'], res['detail'], replay={'kind': 'c16.real', 'name': res['name']})
     for res in R16.model_isotherm_cases():
         rep.add_bounded(f"{P}/bounded.{res['name']}", res['ok'], res['detail'], replay={'kind': 'c16.model_isotherm', 'name': res['name']})
+    for res in R16.own_properties_cases():
+        rep.add_bounded(f"{P}/bounded.{res['name']}", res['ok'], res['detail'], replay={'kind': 'c16.own_properties', 'name': res['name']})
     rep.shape_bounded = {'N': nmax, 'what': f'volume/pressure arrays of 2..{nmax} symbolic points', 'obligations': sum(1 for o in obs if '/psd_meso.' in o['name'])}
